@@ -318,7 +318,7 @@ impl Layer {
         for y in 0..height {
             for x in 0..width {
                 let ch = AttributedChar {
-                    ch: unsafe { char::from_u32_unchecked(u16::from_le_bytes([data[0], data[1]]) as u32) },
+                    ch: char::from_u32(u16::from_le_bytes([data[0], data[1]]) as u32)?,
                     attribute: TextAttribute {
                         attr: u16::from_le_bytes([data[2], data[3]]),
                         font_page: u16::from_le_bytes([data[4], data[5]]) as usize,
